@@ -323,6 +323,14 @@ def expanded_assertions(fm: FuncModel, hk: tuple, value: bool = True) -> list[N]
         tnode = fm.cfg.nodes[next(iter(fm.cfg.g.predecessors(b.id)))]
         pol = _expanded_polarity(fm, b.test, tnode, hk)
         if pol is None:
+            # a conjunct of a test that was taken / a disjunct of one that was not: `if flag and not node["expanded"]:`
+            t = b.test
+            parts = t.values if isinstance(t, ast.BoolOp) and ((isinstance(t.op, ast.And) and b.pol) or (isinstance(t.op, ast.Or) and not b.pol)) else []
+            for part in parts:
+                p2 = _expanded_polarity(fm, part, tnode, hk)
+                if p2 is not None and (p2 == b.pol) == value:
+                    out.append(b)
+                    break
             continue
         if (pol == b.pol) == value:
             out.append(b)
